@@ -58,6 +58,13 @@ def jobs(tier):
     for c in pcls:
         js.append(dict(name=f"wire[pairs:{c['name']}]", fn="wire", args=[corpus.closure(ptypes, c["instrs"]), c, pcfg], tree="pairs", collect_models=1,
                        expect=["serialized length equals the prescribed length"]))
+    # array arguments as one-shot iterators (core classes that have arrays)
+    def has_array(instrs):
+        return any(i[0] == "array" or (i[0] == "chunked" and has_array(i[1])) or (i[0] == "switch" and any(has_array(c[3]) for c in i[2])) for i in instrs)
+    for c in cls:
+        if has_array(c["instrs"]):
+            js.append(dict(name=f"wire_iter[core:{c['name']}]", fn="wire_iter", args=[corpus.closure(types, c["instrs"]), c, {"lens": [0, 1], "counts": [0, 1, 2]}],
+                           tree="core", collect_models=1, expect=["serialized length equals the prescribed length"]))
     # core classes generated in isolation (a tree of their own): order effects inside the generator
     from .c01 import MINI
     for m in MINI:
